@@ -11,7 +11,7 @@
      read     ( entry reqs frames specs )-> ( verdict ... )
      extract  ( objs so se spec )        -> ( write_err ) | ( miss ) | ( panic ) | ( hit so se ( f ... ) )
    objs = ( (name mode content frame [optional present]) ... ), so/se = ( content frame ), frames = ( (start len isempty) ... )
-   verdict = 0 | ( so se r ... ) ; so,se = 0 | 2 | ( tok ) ; r = 0 | 2 | ( mode tok ) ; tok = e | index *)
+   verdict = 0 | ( so se r ... ) ; so,se = 0 | 2 | ( tok ) ; r = 0 error | 1 absent | 2 panic | ( mode tok ) ; tok = e | index *)
 From Coq Require Import List NArith Bool.
 From Coq Require String.
 Import String.StringSyntax.
@@ -82,7 +82,7 @@ Fixpoint render_body (body : list (list N)) : list sx :=
 
 Definition render (ms : list member) : sx :=
   let bytes := write_zip ms in
-  if N.leb (lenN bytes) 65536 then SL [sym "full"; SB bytes]
+  if N.leb (lenN bytes) 300000 then SL [sym "full"; SB bytes]
   else
     let '(body, cd, cdstart) := lay ms 0 in
     SL (sym "chunks" :: render_body body
@@ -95,7 +95,10 @@ Definition verdict (t : table) (bs : list N) (reqs : list (list N)) : sx :=
   | Some ar =>
     SL (enc_b (get_bytes (decompress_t t) ar bs NAME_STDOUT)
         :: enc_b (get_bytes (decompress_t t) ar bs NAME_STDERR)
-        :: map (fun n => enc_g (get_object (decompress_t t) ar bs n)) reqs)
+        :: map (fun n => match get_object (decompress_t t) ar bs n with
+                         | GErr => SN (if has_name ar n then 0 else 1)
+                         | g => enc_g g
+                         end) reqs)
   end.
 
 (* ---------------------------------------------------------------- corruption specs *)
